@@ -61,6 +61,11 @@ type Script struct {
 	Plugin  int   `json:"plugin"` // pool index 0..4 (chain order = fixture's index order)
 	Ops     []Op  `json:"ops,omitempty"`
 	Updates []Upd `json:"updates,omitempty"`
+	// Evict: targets the plugin asks the runtime to evict (the evict field of a creation /
+	// update response, which pkg/stub cannot express: the harness adds it on the wire).
+	// No listed property speaks about evictions and the adaptation ignores the field: an
+	// eviction must change nothing about what is collected for that container.
+	Evict []string `json:"evict,omitempty"`
 }
 
 // Orig describes the runtime's original container (create) by the keys that are present;
@@ -445,6 +450,32 @@ func GenCase(t *rapid.T, b Bias) Case {
 				if (op.Act == "del" || op.Act == "reset") && (op.Fam == "ann" || op.Fam == "env" || op.Fam == "mount" || op.Fam == "dev") {
 					op.Payload = rapid.Bool().Draw(t, "payload")
 				}
+			}
+		}
+	}
+	if (c.Kind == "create" || c.Kind == "update") && len(c.Chain) >= 2 && gen.Uniform(t, "evictions", 5) == 0 {
+		// evictions: mostly of a target that plugins around the evicting one update
+		named := map[string][]int{}
+		for i, s := range c.Chain {
+			for _, u := range s.Updates {
+				if u.Target != "SELF" {
+					named[u.Target] = append(named[u.Target], i)
+				}
+			}
+		}
+		for i := range c.Chain {
+			s := &c.Chain[i]
+			if fixtureSpecs[c.Fixture].launched[s.Plugin] {
+				continue // a launched plugin is a plain stub: it cannot send the field
+			}
+			for _, tg := range sortedTargets(named) {
+				pos := named[tg]
+				if pos[0] < i && i < pos[len(pos)-1] && rapid.Bool().Draw(t, "evictbetween") {
+					s.Evict = append(s.Evict, tg)
+				}
+			}
+			if len(s.Evict) == 0 && gen.Uniform(t, "evictany", 4) == 0 {
+				s.Evict = append(s.Evict, gen.Pick(t, "evicttarget", []string{"T1", "T2", "T3"}))
 			}
 		}
 	}
@@ -1033,3 +1064,12 @@ func forceRelease(t *rapid.T, c *Case) {
 }
 
 func (o Op) String() string { return fmt.Sprintf("%s:%s/%s", o.Act, o.Fam, o.Key) }
+
+func sortedTargets(m map[string][]int) []string {
+	var out []string
+	for k := range m {
+		out = append(out, k)
+	}
+	sort.Strings(out)
+	return out
+}
